@@ -25,7 +25,9 @@ RULE = ("nested dataclasses (kw_only, depth <= 3, 1..6 leaves of kind int / str 
         "default=instance, set_defaults(dest=instance) or set_defaults(dest=dict) x explicit nulls on Optional leaves x probes (unknown key "
         "in a root / nested section, `_type_` tag, non-destination top-level key, null / scalar section, scalar destination section, dict "
         "for a field); plus direct calls of utils.dict_union on random pairs of documents (compatible and not). A fresh parser is built "
-        "for every parse. Non-trivial = some layer above the definition mentions a leaf, or a probe; distinct by full case.")
+        "for every parse; every worker writes its files under a small fixed pool of names, so consecutive cases reuse the same paths with other "
+        "contents, and about a third of the cases with files are two-step: the same paths first hold other values (ints + 500, strings + 'p', "
+        "some mentions missing) and are parsed once, then rewritten, and the SECOND parse is what is judged. Non-trivial = some layer above the definition mentions a leaf, or a probe; distinct by full case.")
 TRUSTED = [
     "a dict is modelled as an association list read by first match; key order is not modelled (dict_union sorts keys, nothing downstream reads the order)",
     "argparse is modelled as: an option written on the command line overrides the default; a required option that is absent ends with exit status 2",
@@ -218,9 +220,24 @@ def build_case(rng, api, nm, ndest, roots, subsets, nulls_ok=True, probe=None, g
                 ctor_form=rng.choice(["list", "list", "str", "path"]) if len(ctor) == 1 else "list",
                 acp=acp, cli_given=cli_given, clif=clif, cli_pos=rng.choice(["front", "back"]), cli=cli,
                 unrooted=unrooted, probe=None, nulls=sorted(set(nulls)))
+    case["pre"] = None
     if probe:
         apply_probe(rng, case, probe)
+    if (case["ctor"] or case["clif"]) and rng.random() < 0.3:
+        # two-step case: the same paths first hold other contents and are parsed once; what is judged is the second parse
+        case["pre"] = {name: [earlier_doc(rng, fl["doc"]) for fl in case[name]] for name in ("ctor", "clif")}
     return case
+
+
+def earlier_doc(rng, doc):
+    """same layout, other values (ints + 500, strings + 'p'); now and then a mention is missing"""
+    if isinstance(doc, dict):
+        return {k: earlier_doc(rng, v) for k, v in doc.items() if isinstance(v, dict) or rng.random() < 0.85}
+    if isinstance(doc, bool) or doc is None:
+        return doc
+    if isinstance(doc, int):
+        return doc + 500
+    return doc + "p"
 
 
 PROBES = ["unknown_root", "unknown_nested", "type_root", "type_nested", "toplevel_other", "section_null", "section_scalar",
@@ -596,9 +613,11 @@ def run_impl(cases):
             exec(compile(class_source(case["roots"]), "<c06>", "exec", dont_inherit=True), ns)
             roots = case["roots"]
 
-            def write(fl, tag, j):
-                raw = fl["doc"][roots[0]["dest"]] if case["unrooted"] else fl["doc"]
-                path = os.path.join(scratch, f"c{ci}_{tag}{j}.{fl['fmt']}")
+            def write(fl, tag, j, doc=None):
+                # a small fixed pool of names per worker: consecutive cases (and the two steps of a case) reuse the same paths
+                doc = fl["doc"] if doc is None else doc
+                raw = doc.get(roots[0]["dest"], {}) if case["unrooted"] else doc
+                path = os.path.join(scratch, f"{tag}{j}.{fl['fmt']}")
                 with open(path, "w") as fh:
                     if fl["fmt"] == "json":
                         json.dump(raw, fh)
@@ -606,8 +625,14 @@ def run_impl(cases):
                         yaml.safe_dump(raw, fh, sort_keys=False)
                 return path, raw
 
-            ctor_w = [write(fl, "k", j) for j, fl in enumerate(case["ctor"])]
-            clif_w = [write(fl, "c", j) for j, fl in enumerate(case["clif"])]
+            pre = case.get("pre")
+            if pre:
+                for j, fl in enumerate(case["ctor"]):
+                    write(fl, "k", j, pre["ctor"][j])
+                for j, fl in enumerate(case["clif"]):
+                    write(fl, "c", j, pre["clif"][j])
+            ctor_w = [(os.path.join(scratch, f"k{j}.{fl['fmt']}"), None) for j, fl in enumerate(case["ctor"])]
+            clif_w = [(os.path.join(scratch, f"c{j}.{fl['fmt']}"), None) for j, fl in enumerate(case["clif"])]
             ctor_paths = [p for p, _ in ctor_w]
             if case["ctor_form"] == "str" and len(ctor_paths) == 1:
                 config_path = ctor_paths[0]
@@ -659,9 +684,15 @@ def run_impl(cases):
                 nsp = parser.parse_args(argv)
                 return {r["dest"]: _tree_of(getattr(nsp, r["dest"])) for r in roots}
 
+            pre_outcome = None
+            if pre:
+                pre_outcome = outcome_of(go)[0]     # first parse, on the earlier contents: not judged
+                reset_simple_parsing_state()
+            ctor_w = [write(fl, "k", j) for j, fl in enumerate(case["ctor"])]
+            clif_w = [write(fl, "c", j) for j, fl in enumerate(case["clif"])]
             r = outcome_of(go)
             out.append(dict(obs=r[:2], msg=(r[2] if len(r) > 2 and r[0] != "ok" else "")[:200], inst=seen["inst"], sdefs=seen["sdefs"],
-                            ctor=[raw for _, raw in ctor_w], clif=[raw for _, raw in clif_w], argv_len=len(argv)))
+                            ctor=[raw for _, raw in ctor_w], clif=[raw for _, raw in clif_w], argv_len=len(argv), pre=pre_outcome))
     finally:
         shutil.rmtree(scratch, ignore_errors=True)
     return out
@@ -858,7 +889,7 @@ def features(case, obs):
     if case["kind"] == "union":
         return {"kind": "union", "compatible": compatible(case["a"], case["b"])}
     o = obs["obs"]
-    return {"kind": "parse", "optional_members": len(opt_member_paths(case["roots"])), "field_named_like_dest": any(f["name"] == r["dest"] for r in case["roots"] for f in r["cls"]["fields"]), "api": f"{case['api']}/{case['nm']}/{len(case['roots'])}", "gen": case["gen"], "via": case["via"],
+    return {"kind": "parse", "two_step": bool(case.get("pre")), "optional_members": len(opt_member_paths(case["roots"])), "field_named_like_dest": any(f["name"] == r["dest"] for r in case["roots"] for f in r["cls"]["fields"]), "api": f"{case['api']}/{case['nm']}/{len(case['roots'])}", "gen": case["gen"], "via": case["via"],
             "nctor": len(case["ctor"]), "nclif": len(case["clif"]) if case["cli_given"] else "-", "probe": case["probe"],
             "leaves": len(forest_leaves(case["roots"])), "depth": max(depth_of(r["cls"]) for r in case["roots"]),
             "nulls": bool(case["nulls"]), "ctor_form": case["ctor_form"], "acp": case["acp"],
@@ -931,6 +962,8 @@ def shrink(case):
         for j in range(len(case[name])):
             c = copy.deepcopy(case)
             del c[name][j]
+            if c.get("pre"):
+                del c["pre"][name][j]
             if name == "clif" and not c["clif"]:
                 c["cli_given"] = False
             if len(c["ctor"]) != 1:
@@ -939,6 +972,10 @@ def shrink(case):
     if case["cli"]:
         c = copy.deepcopy(case)
         c["cli"] = {}
+        yield c
+    if case.get("pre"):
+        c = copy.deepcopy(case)
+        c["pre"] = None
         yield c
     if case["via"] != "none":
         c = copy.deepcopy(case)
